@@ -157,9 +157,9 @@ class C13BuiltinConditions(Bounded):
             if seen[kind] <= 2:
                 fails.append({"text": text, "input": inp})
 
-        def run_item(item, state=None):
+        def run_item(item, state=None, pre=()):
             """which of the fields f g n z h k k2 carry the marker prefix after the item ran; 'error' for a configuration error"""
-            items = ([{"type": "set_state", "key": k, "val": v} for k, v in (state or {}).items()]) + [dict(item, id="marked", type="field_name_prefix", prefix="X_")]
+            items = list(pre) + ([{"type": "set_state", "key": k, "val": v} for k, v in (state or {}).items()]) + [dict(item, id="marked", type="field_name_prefix", prefix="X_")]
             try:
                 q = TextQueryTestBackend(ProcessingPipeline.from_dict({"transformations": items})).convert(SigmaCollection.from_dicts([copy.deepcopy(RULE2)]))[0]
             except SigmaConfigurationError:
@@ -185,6 +185,22 @@ class C13BuiltinConditions(Bounded):
                 exp = "error" if want == "error" else (ALL if want else set())
                 if got != exp:
                     fail("rule_attribute", f"rule_attribute {attribute} {op} {value!r} on a rule with {attribute} = {RULE2.get(attribute)!r}: item applied to {got if isinstance(got, str) else sorted(got)}, documented meaning: {'configuration error' if want == 'error' else want}", [attribute, op, value])
+        # ---- a custom attribute named like a built-in one (set by an earlier item) does not replace the rule's own attribute
+        for attribute, custom, probe in (("level", "critical", "critical"), ("level", "critical", RULE2.get("level")), ("status", "deprecated", "deprecated"), ("title", "other", "other"), ("title", "other", RULE2.get("title"))):
+            if probe is None:
+                continue
+            for op in ("eq", "ne"):
+                ev += 1
+                nontriv += 1
+                want = attr_oracle(attribute, probe, op)
+                if want is None or want == "error":
+                    continue
+                try:
+                    got = run_item({"rule_conditions": [{"type": "rule_attribute", "attribute": attribute, "value": probe, "op": op}]}, pre=[{"type": "set_custom_attribute", "attribute": attribute, "value": custom}])
+                except Exception as e:
+                    got = f"{type(e).__name__}: {e}"
+                if got != (ALL if want else set()):
+                    fail("rule_attribute-shadowed", f"rule_attribute {attribute} {op} {probe!r} after set_custom_attribute {attribute} = {custom!r} on a rule whose own {attribute} is {RULE2.get(attribute)!r}: item applied to {got if isinstance(got, str) else sorted(got)}, the rule's own attribute says {want}", [attribute, op, probe, custom])
         # ---- other rule conditions
         rc = [({"type": "tag", "tag": "attack.t1059"}, True), ({"type": "tag", "tag": "attack.t1060"}, False), ({"type": "tag", "tag": "attack.execution"}, True),
               ({"type": "contains_field", "field": "k2"}, True), ({"type": "contains_field", "field": "K2"}, False), ({"type": "contains_field", "field": "v2"}, False),
@@ -195,7 +211,10 @@ class C13BuiltinConditions(Bounded):
               ({"type": "logsource", "category": "c", "product": "p", "service": "s"}, True), ({"type": "logsource", "service": "other"}, False),
               ({"type": "is_sigma_rule"}, True), ({"type": "is_sigma_correlation_rule"}, False),
               ({"type": "processing_state", "key": "k", "val": "v"}, ("state", {"k": "v"}, True)), ({"type": "processing_state", "key": "k", "val": "v"}, ("state", {"k": "w"}, False)),
-              ({"type": "processing_state", "key": "k", "val": "v"}, ("state", {}, False)), ({"type": "processing_item_applied", "processing_item_id": "nobody"}, False)]
+              ({"type": "processing_state", "key": "k", "val": "v"}, ("state", {}, False)), ({"type": "processing_item_applied", "processing_item_id": "nobody"}, False),
+              # a state that was SET to a falsy value is set
+              ({"type": "processing_state", "key": "k", "val": 0}, ("state", {"k": 0}, True)), ({"type": "processing_state", "key": "k", "val": False}, ("state", {"k": False}, True)),
+              ({"type": "processing_state", "key": "k", "val": ""}, ("state", {"k": ""}, True)), ({"type": "processing_state", "key": "k", "val": 0}, ("state", {}, False)), ({"type": "processing_state", "key": "k", "val": 0}, ("state", {"k": 1}, False))]
         for cond, want in rc:
             state = None
             if isinstance(want, tuple):
@@ -216,7 +235,8 @@ class C13BuiltinConditions(Bounded):
               ({"type": "contains_wildcard", "cond": "any"}, {"f"}), ({"type": "contains_wildcard", "cond": "all"}, set()), ({"type": "is_null", "cond": "all"}, {"z"}), ({"type": "is_null", "cond": "any"}, {"z"}),
               ({"type": "match_value", "cond": "any", "value": 5}, {"n"}), ({"type": "match_value", "cond": "any", "value": "b"}, {"f"}), ({"type": "match_value", "cond": "all", "value": "v"}, {"k"}),
               ({"type": "processing_item_applied", "processing_item_id": "nobody"}, set()), ({"type": "processing_state", "key": "k", "val": "v"}, ("state", {"k": "v"}, ALL)),
-              ({"type": "processing_state", "key": "k", "val": "v"}, ("state", {"k": 1}, set()))]
+              ({"type": "processing_state", "key": "k", "val": "v"}, ("state", {"k": 1}, set())), ({"type": "processing_state", "key": "k", "val": 0}, ("state", {"k": 0}, ALL)),
+              ({"type": "processing_state", "key": "k", "val": False}, ("state", {"k": False}, ALL))]
         for cond, want in dc:
             state = None
             if isinstance(want, tuple):
@@ -240,7 +260,8 @@ class C13BuiltinConditions(Bounded):
               ({"type": "include_fields", "fields": ["(?i)^K$", "^N$"], "mode": "re"}, {"k"}), ({"type": "include_fields", "fields": ["^N$", "(?i)^K2$"], "mode": "re"}, {"k2"}),
               ({"type": "exclude_fields", "fields": ["(?i)^F$", "^G$", "^Z$"], "mode": "re"}, ALL - {"f"}), ({"type": "include_fields", "fields": ["^(k)\\1$", "^(n)$"], "mode": "re"}, {"n"}),
               ({"type": "include_fields", "fields": ["K"]}, set()), ({"type": "include_fields", "fields": []}, set()), ({"type": "exclude_fields", "fields": []}, ALL),
-              ({"type": "processing_item_applied", "processing_item_id": "nobody"}, set()), ({"type": "processing_state", "key": "k", "val": "v"}, ("state", {"k": "v"}, ALL))]
+              ({"type": "processing_item_applied", "processing_item_id": "nobody"}, set()), ({"type": "processing_state", "key": "k", "val": "v"}, ("state", {"k": "v"}, ALL)), ({"type": "processing_state", "key": "k", "val": 0}, ("state", {"k": 0}, ALL)),
+              ({"type": "processing_state", "key": "k", "val": ""}, ("state", {"k": ""}, ALL))]
         for cond, want in fc:
             state = None
             if isinstance(want, tuple):
